@@ -261,6 +261,7 @@ func (l *sparseFileLoader) loadChunk(i int) error {
 		return err
 	}
 
+	verifYield("sparse.written")
 	l.mu.Lock()
 	l.done.Set(i, true)
 	l.mu.Unlock()
